@@ -13,13 +13,14 @@
 (* instruction i lives at byte address 4*i.                                *)
 (*                                                                         *)
 (* A machine state is a record                                             *)
-(*   [pc, regs, mem, status, n, cyc1, pcs, addrs, ev]                      *)
+(*   [pc, regs, mem, status, n, cyc1, ev]                                  *)
 (*  regs : register name -> Word (the zero register is not stored)         *)
 (*  mem  : sparse function address -> 0..255 over an image (see ImgByte)   *)
 (*  status \in {"run","ret","end","err","oob","misaligned","fuel"}         *)
 (*  n    : number of executed instructions                                 *)
 (*  cyc1 : cycle ledger of the unpipelined MVP-1 latency model (C12)       *)
-(*  pcs, addrs : executed path and accessed addresses (value independence) *)
+(*  ev   : executed path: per step the instruction index, the accessed     *)
+(*         address (-1 if none) and whether control was transferred        *)
 (***************************************************************************)
 EXTENDS Word32, FiniteSets, TLC
 
@@ -164,7 +165,7 @@ Cyc1(i, eff) ==
 
 InitState(regs) ==
   [pc |-> 0, regs |-> regs, mem |-> <<>>, status |-> "run", n |-> 0, cyc1 |-> 0,
-   pcs |-> <<>>, addrs |-> <<>>, ev |-> <<>>]
+   ev |-> <<>>]
 
 (* one sequential step *)
 Step(prog, st, img, memSize) ==
@@ -173,19 +174,18 @@ Step(prog, st, img, memSize) ==
   ELSE
     LET i == prog[st.pc \div 4 + 1]
         e == Effect(i, st.pc, st.regs, st.mem, img, memSize, Len(prog))
-        st1 == [st EXCEPT !.n = @ + 1, !.cyc1 = @ + Cyc1(i, e), !.pcs = Append(@, st.pc \div 4),
+        st1 == [st EXCEPT !.n = @ + 1, !.cyc1 = @ + Cyc1(i, e),
                           \* ev: executed instruction index, accessed address (-1 if none), taken control transfer
                           !.ev = Append(@, [i |-> st.pc \div 4,
                                             a |-> IF e.kind \in {"reg", "mem"} /\ i.op \in LoadOps \cup StoreOps THEN e.addr ELSE -1,
                                             t |-> e.kind \in {"reg", "none"} /\ (e.next # st.pc + 4 \/ i.op \in JumpOps)])]
     IN
-    CASE e.kind = "reg" -> [st1 EXCEPT !.regs = WReg(@, e.rd, e.val), !.pc = e.next,
-                                        !.addrs = IF i.op \in LoadOps THEN Append(@, e.addr) ELSE @]
+    CASE e.kind = "reg" -> [st1 EXCEPT !.regs = WReg(@, e.rd, e.val), !.pc = e.next]
       [] e.kind = "mem" ->
            LET rng == e.addr .. (e.addr + Len(e.bytes) - 1)
                m2 == [a \in (DOMAIN st.mem) \cup rng |->
                         IF a \in rng THEN e.bytes[a - e.addr + 1] ELSE st.mem[a]]
-           IN [st1 EXCEPT !.mem = m2, !.pc = e.next, !.addrs = Append(@, e.addr)]
+           IN [st1 EXCEPT !.mem = m2, !.pc = e.next]
       [] e.kind = "none" -> [st1 EXCEPT !.pc = e.next]
       [] e.kind = "ret" -> [st1 EXCEPT !.status = "ret"]
       [] OTHER -> [st1 EXCEPT !.status = e.kind]
